@@ -14,9 +14,19 @@ import OidcModel.Model.CodecGen
 namespace C01
 open Go Cdc
 
-/-- the whole seconds a JSON number names (fraction dropped toward zero), if they fit `oidc.Time` (an int64) -/
+/-- `time.Time` counts the seconds of an instant from January 1 of year 1 in an int64; `time.Unix(sec, 0)` computes that count
+    as `sec + 62135596800` IN int64 ARITHMETIC (for the last 62135596800 seconds of the int64 range the sum wraps around to an
+    instant 292 billion years in the past).  This is the count it arrives at. -/
+def unixInternalSeconds (sec : Int) : Int := (sec + 62135596800 + 9223372036854775808) % 18446744073709551616 - 9223372036854775808
+
+/-- the last second (counted from 1970) whose instant a `time.Time` can hold -/
+def maxInstantSeconds : Int := 9223372036854775807 - 62135596800
+
+/-- the whole seconds a JSON number names (fraction dropped toward zero), if `oidc.Time` (an int64) can hold them AND the
+    instant they name is one `time.Time` can hold (finding F-C01a, fixed: up to then every int64 was admitted and the instants
+    of the last 62135596800 seconds were judged as dates in the far past) -/
 def numberSeconds (x : F64) : Option Int :=
-  if x.nan = false ∧ -9223372036854775808 ≤ x.floor ∧ x.floor ≤ 9223372036854775807 then
+  if x.nan = false ∧ -9223372036854775808 ≤ x.floor ∧ x.floor ≤ maxInstantSeconds then
     some (if x.floor < 0 ∧ x.frac = true then x.floor + 1 else x.floor)
   else none
 
